@@ -142,7 +142,7 @@ fn judge(text: &str, obs: &Obs, m: &PosModel) -> Vec<Disc> {
             }
             continue;
         }
-        let adm = m.to_offset_admissible(l32, c32, true);
+        let adm = m.to_offset_admissible(l32, c32, false);
         let start = m.line_start(l32).unwrap_or(0);
         let past_end = c32 > m.line_len_units(l32).unwrap_or(0);
         let cls = if past_end { "past-line-end" } else { "in-line" };
